@@ -57,7 +57,8 @@ def plans(draw):
                 if seen5:
                     d["k"], d["types"] = 4, d["types"][:4]
                 seen5 = True
-    return {"boxes": boxes, "designs": designs, "mode": mode, "workers": draw(st.integers(2, 3)),
+    prec = [draw(st.sampled_from([None, None, 0.25, 0.1, 1e-3])) for _ in range(n)]
+    return {"boxes": boxes, "prec": prec, "designs": designs, "mode": mode, "workers": draw(st.integers(2, 3)),
             "store": draw(st.booleans()), "seed": draw(st.integers(0, 2 ** 31))}
 
 
@@ -98,6 +99,9 @@ def run_plan(case, clause, other=None):
         return _f(ind.vector)
 
     ps = [{"name": "x%d" % i, "bounds": list(b)} for i, b in enumerate(boxes)]
+    for p_, q_ in zip(ps, case.get("prec") or []):
+        if q_:
+            p_["precision"] = q_
     prob = make_problem(ps, [{"name": "f0", "criteria": "minimize"}, {"name": "f1", "criteria": "maximize"}], ev)
     db = None
     seed_all(case["seed"])
@@ -165,9 +169,11 @@ def run_plan(case, clause, other=None):
         dispose(prob)
 
 
-def _in_box(v, boxes):
-    for x, (lb, ub) in zip(v, boxes):
+def _in_box(v, boxes, prec=None):
+    for j, (x, (lb, ub)) in enumerate(zip(v, boxes)):
         t = 1e-12 + 4 * ulp(max(abs(lb), abs(ub)))
+        if prec and prec[j]:
+            t = prec[j] / 2 + 4 * ulp(max(abs(lb), abs(ub), prec[j]))
         if not (lb - t <= x <= ub + t):
             return False
     return True
@@ -206,10 +212,11 @@ def check_plan(case, clause="transient"):
         if c and c[0][0] != [float(x) for x in r["start"][i]]:
             raise Violation(clause, "first-attempt-vector", "first call used %r, design was %r" % (c[0][0], r["start"][i]))
         for (vec, out) in c:
-            if not _in_box(vec, boxes):
+            if not _in_box(vec, boxes, case.get("prec")):
                 raise Violation(clause, "replacement-out-of-box", "attempt vector %r outside %r" % (vec, boxes))
         for a, b_ in zip(c, c[1:]):
-            if a[0] == b_[0]:
+            # (with a declared coarse precision a fresh sample may legitimately coincide with the failed one)
+            if a[0] == b_[0] and not any(case.get("prec") or []):
                 raise Violation(clause, "not-resampled", "the retry used the same vector %r again" % (a[0],))
         exp_failed.extend(vec for vec, out in c if out == "fail")
         if d["k"] < 5:
